@@ -128,6 +128,8 @@ def run_c16(out, tier, rng):
                 specs = []
                 for k, name in enumerate(calls):
                     modes = ["before", "after"] + (["midway"] if name == "shutil.copyfile" else [])
+                    if name in ("stormlib.extract_file", "stormlib.add_file", "stormlib.compact_archive"):
+                        modes.append("reports-failure")   # the library does its work, then says it failed
                     for m in modes:
                         specs.append(dict({"op": op, "base": base, "dest": dest, "flag": flag, "fault": [k, m]}, **extra))
                 for r in pmap(specs):
